@@ -25,7 +25,7 @@ PROG = ["        NAM PROG", "        ORG $0E00", "START   LDA #1", "        RTS"
 PROG_BYTES = bytes([0x86, 0x01, 0x39])
 SRC_FILE = c07.fspec("ML", 40, "SRCFILE", pat="ramp7", load=0x3000, exec_=0x3005)
 
-TARGETS = ["absent", "empty", "cas1", "cas2", "dskblank", "dsk1", "rawbin", "bytes", "bytes553c", "casbig", "zeros", "all55", "allFF", "casodd", "dsk67", "dskholes", "dskemptyml", "casbig00", "dsktext", "bintapey"]
+TARGETS = ["absent", "empty", "cas1", "cas2", "dskblank", "dsk1", "rawbin", "bytes", "bytes553c", "casbig", "zeros", "all55", "allFF", "casodd", "dsk67", "dskholes", "dskemptyml", "casbig00", "dsktext", "bintapey", "dskexact"]
 SWITCHES = ["bin", "cas", "dsk"]
 CLIS = ["asm", "fu.cas", "fu.dsk"]
 
@@ -63,6 +63,9 @@ def make_target(kind):
     if kind == "bintapey":    # a raw program that carries tape block templates as data (a tape-writing utility): header and data block patterns, no EOF block
         return (bytes([0x8E, 0x10, 0x00, 0x39]) + bytes([0x55, 0x3C, 0x00, 0x0F]) + b"TAPEUTIL" + bytes([2, 0, 0, 0x0E, 0x00, 0x0E, 0x00, 0x3D, 0x55]) +
                 bytes([0x12] * 9) + bytes([0x55, 0x3C, 0x01, 0x03, 0x41, 0x42, 0x43, 0xCA, 0x55]) + bytes([0x39]))
+    if kind == "dskexact":    # a valid disk as Disk BASIC writes it: a text file that fills its only granule completely (marker $C9, 256 bytes in the last sector)
+        return dskfs.write([{"name": "FULLGRAN", "ext": "TXT", "type": 1, "dtype": 0xFF, "stream": C.pattern(2304, "ramp7"), "chain": [5]},
+                            {"name": "PROGRAM", "ext": "BIN", "type": 2, "dtype": 0, "stream": dskfs.make_stream("ml", C.pattern(40, "ramp"), 0x1000, 0x1000), "chain": [32]}], tight=True)
     if kind == "dsktext":     # a valid disk holding a machine-language file and a type-3 (text) ASCII file
         return dskfs.write([{"name": "PROGRAM", "ext": "BIN", "type": 2, "dtype": 0, "stream": dskfs.make_stream("ml", C.pattern(40, "ramp"), 0x1000, 0x1000), "chain": [32]},
                             {"name": "README", "ext": "TXT", "type": 3, "dtype": 0xFF, "stream": dskfs.make_stream("ascii", C.pattern(300, "ramp7"), 0, 0), "chain": [33]},
